@@ -69,7 +69,13 @@ func (r *run) checkC14(d *delivery, i int) {
 		}
 	}
 	b, bu := len(post.Status.Board), len(post.Status.Burned)
-	if !((b == 0 && bu == 0) || (b == 3 && bu == 1) || (b == 4 && bu == 2) || (b == 5 && bu == 3)) {
+	streets := map[int]int{0: 0, 3: 1, 4: 2, 5: 3}
+	k, okBoard := streets[b]
+	// one card is burned per street; an engine that honours the burn_count
+	// option instead burns that many (leniency: the statement says one, the
+	// option exists)
+	okBurn := bu == k || (r.cfg.BurnCount > 0 && bu == k*r.cfg.BurnCount)
+	if !okBoard || !okBurn {
 		r.viol("C14", "board-burn-shape", fmt.Sprintf("board %d cards, burned %d", b, bu), i)
 	}
 	wantB := map[string]int{"": 0, "preflop": 0, "flop": 3, "turn": 4, "river": 5}[post.Status.Round]
